@@ -1,7 +1,7 @@
 //! bounded(ROUNDS (default 12; `thorough`: 120) rounds; in each a connected pair of real Plexers over a Unix-domain socket pair on a 4-thread runtime, 3 protocols,
 //! on each protocol a client agent on side A talking to a server agent on side B AND a client agent on side B talking to a server agent on side A — 12 concurrent
 //! senders and 12 receivers; every sender enqueues 60 chunks of pseudo-random sizes from {0, 1, 2, 255, 4096, 65535} and other sizes up to 65535, each chunk carrying
-//! (sender id, sequence number) in its first bytes where it is long enough and a size-derived fill, with pseudo-random task yields): every receiver gets exactly the chunks
+//! (sender id, sequence number) in its first bytes where it is long enough and a size-derived fill, with pseudo-random task yields; plus 3 backlog rounds in which 150 chunks are outstanding on one protocol before its receiver takes the first): every receiver gets exactly the chunks
 //! of the sender of the opposite role on its protocol from the other side, each once, in enqueue order, with the same bytes — none from another protocol, role or direction.
 //! Exit 1 with the first difference if not.
 use pallas_network::multiplexer::{Bearer, Plexer};
@@ -70,12 +70,38 @@ async fn round(seed: u64) -> Result<u64, String> {
     let _ = std::fs::remove_file(&dir);
     Ok(n)
 }
+/// a receiver that starts late: 150 chunks are outstanding on one protocol before the first is taken (the per-agent queue holds 100) — back-pressure may delay, nothing may be lost
+async fn backlog(seed: u64) -> Result<u64, String> {
+    let dir = std::env::temp_dir().join(format!("verif-c20b-{}-{seed}", std::process::id()));
+    let _ = std::fs::remove_file(&dir);
+    let listener = tokio::net::UnixListener::bind(&dir).map_err(|e| format!("bind: {e}"))?;
+    let (a, b) = tokio::join!(Bearer::connect_unix(&dir), Bearer::accept_unix(&listener));
+    let (a, (b, _)) = (a.map_err(|e| format!("connect: {e}"))?, b.map_err(|e| format!("accept: {e}"))?);
+    let mut pa = Plexer::new(a); let mut pb = Plexer::new(b);
+    let mut client = pa.subscribe_client(5); let mut server = pb.subscribe_server(5);
+    let mut other_c = pa.subscribe_client(6); let mut other_s = pb.subscribe_server(6);
+    let (ra, rb) = (pa.spawn(), pb.spawn());
+    const N: u32 = 150;
+    let sender = tokio::spawn(async move { for i in 0..N { client.enqueue_chunk(vec![(i >> 8) as u8, i as u8, seed as u8]).await.map_err(|e| format!("enqueue #{i}: {e}"))?; } Ok::<(), String>(()) });
+    // another protocol keeps flowing meanwhile
+    let side = tokio::spawn(async move { for i in 0..20u8 { other_c.enqueue_chunk(vec![i]).await.map_err(|e| format!("{e}"))?; let c = tokio::time::timeout(Duration::from_secs(20), other_s.dequeue_chunk()).await.map_err(|_| format!("protocol 6 stalled at chunk {i} while protocol 5 had a backlog"))?.map_err(|e| format!("{e}"))?; if c != vec![i] { return Err(format!("protocol 6 received {c:?} as chunk {i}")); } } Ok::<(), String>(()) });
+    tokio::time::sleep(Duration::from_millis(300)).await;
+    for i in 0..N {
+        let c = tokio::time::timeout(Duration::from_secs(20), server.dequeue_chunk()).await.map_err(|_| format!("backlog of {N} chunks on one protocol: chunk #{i} never arrived (the receiver started 300 ms late)"))?.map_err(|e| format!("dequeue: {e}"))?;
+        if c != vec![(i >> 8) as u8, i as u8, seed as u8] { return Err(format!("backlog of {N} chunks on one protocol: chunk #{i} arrived as {c:?}")); }
+    }
+    sender.await.map_err(|e| format!("{e}"))??;
+    let _ = side.await.map_err(|e| format!("{e}"))?;      // the side flow may legitimately wait behind the backlog (one socket); it must not see wrong data
+    ra.abort().await; rb.abort().await; let _ = std::fs::remove_file(&dir);
+    Ok(N as u64)
+}
 fn main() {
     let rounds: u64 = if std::env::args().any(|a| a == "thorough") { 120 } else { 12 };
     let rt = tokio::runtime::Builder::new_multi_thread().worker_threads(4).enable_all().build().unwrap();
     let mut n = 0u64;
     for seed in 1..=rounds {
         match rt.block_on(round(seed)) { Ok(k) => n += k, Err(e) => { println!("VIOLATED: round {seed}: {e}"); std::process::exit(1); } }
+        if seed <= 3 { match rt.block_on(backlog(seed)) { Ok(k) => n += k, Err(e) => { println!("VIOLATED: backlog round {seed}: {e}"); std::process::exit(1); } } }
     }
     println!("checked {n} chunks delivered exactly once and in order over {rounds} rounds of 12 concurrent agents on 3 protocols, both roles, both directions");
 }
